@@ -44,6 +44,7 @@ type c03Span struct {
 	lo, hi uintptr
 	typ    reflect.Type
 	held   bool
+	tag    string // inputs: tag of the walk the span came from
 }
 
 type c03Frame struct {
@@ -64,7 +65,8 @@ type c03Walk struct {
 	typedNilIface int
 	locations     int
 	feats         map[string]bool
-	inSkip        int // dials:"-" struct fields on the current path
+	inSkip        int    // dials:"-" struct fields on the current path
+	tag           string // form of the input this walk belongs to (see c03Input)
 	spans         []c03Span
 	emptyMaps     int // non-nil maps without entries
 	spareSlices   int // zero-length slices with capacity > 0
@@ -309,6 +311,8 @@ type c03Iso struct {
 	// outside the property's quantifier: measured only.
 	interiorMeasured int64
 	interiorLost     int64
+	// unexported struct fields compared (scalars by value, pointers by nil-ness)
+	unexportedCompared int64
 	// interior: addresses (in the expected graph) that lie inside a node
 	// struct (Leaf pointers to another node's ID); lets the key say so.
 	interior map[uintptr]bool
@@ -488,6 +492,14 @@ func (s *c03Iso) walk(e, a reflect.Value, direct bool) {
 		t := e.Type()
 		for i := 0; i < e.NumField(); i++ {
 			if !t.Field(i).IsExported() {
+				// unexported fields travel with the shallow whole-struct
+				// assignment; compare what reflect lets us read.
+				if d := c03UnexportedDiff(e.Field(i), a.Field(i)); d != "" {
+					s.unexportedCompared++
+					s.with("."+t.Field(i).Name, func() { s.fail("unexported-field-lost:"+t.String(), d) })
+					return
+				}
+				s.unexportedCompared++
 				continue
 			}
 			i := i
@@ -534,9 +546,38 @@ func (w *c03Walk) overlappingSpans() int {
 	return n
 }
 
+// c03UnexportedDiff compares two unexported struct fields as far as reflect
+// allows reading them: scalars by value, pointers/maps/slices by nil-ness.
+func c03UnexportedDiff(e, a reflect.Value) string {
+	switch e.Kind() {
+	case reflect.Int, reflect.Int8, reflect.Int16, reflect.Int32, reflect.Int64:
+		if e.Int() != a.Int() {
+			return fmt.Sprintf("expected %d, got %d", e.Int(), a.Int())
+		}
+	case reflect.Uint, reflect.Uint8, reflect.Uint16, reflect.Uint32, reflect.Uint64, reflect.Uintptr:
+		if e.Uint() != a.Uint() {
+			return fmt.Sprintf("expected %d, got %d", e.Uint(), a.Uint())
+		}
+	case reflect.String:
+		if e.String() != a.String() {
+			return fmt.Sprintf("expected %q, got %q", e.String(), a.String())
+		}
+	case reflect.Bool:
+		if e.Bool() != a.Bool() {
+			return fmt.Sprintf("expected %v, got %v", e.Bool(), a.Bool())
+		}
+	case reflect.Pointer, reflect.Map, reflect.Slice:
+		if e.IsNil() != a.IsNil() {
+			return fmt.Sprintf("expected nil=%v, got nil=%v (%s)", e.IsNil(), a.IsNil(), e.Type())
+		}
+	}
+	return ""
+}
+
 // c03FreshHit is one class of non-fresh reference found in a result.
 type c03FreshHit struct {
 	Label  string // ptr, map, slice, each optionally -in-interface / -indirect
+	Tag    string // tag of the input the reference is shared with
 	Detail string
 }
 
@@ -564,8 +605,8 @@ func c03NotFresh(out *c03Walk, ins ...*c03Walk) []c03FreshHit {
 				if !info.outsideSkip {
 					label += "-under-dials-skipped-field"
 				}
-				if _, seen := hits[label]; !seen {
-					hits[label] = c03FreshHit{Label: label, Detail: fmt.Sprintf("%s %s %#x is reachable from the result and from an input", c03KindName(id.kind), id.typ, id.addr)}
+				if _, seen := hits[label+"|"+in.tag]; !seen {
+					hits[label+"|"+in.tag] = c03FreshHit{Label: label, Tag: in.tag, Detail: fmt.Sprintf("%s %s %#x is reachable from the result and from an input %s", c03KindName(id.kind), id.typ, id.addr, in.tag)}
 				}
 				break
 			}
@@ -574,7 +615,10 @@ func c03NotFresh(out *c03Walk, ins ...*c03Walk) []c03FreshHit {
 	if len(out.spans) > 0 {
 		var all []c03Span
 		for _, in := range ins {
-			all = append(all, in.spans...)
+			for _, sp := range in.spans {
+				sp.tag = in.tag
+				all = append(all, sp)
+			}
 		}
 		sort.Slice(all, func(i, j int) bool { return all[i].lo < all[j].lo })
 		// merge into disjoint intervals
@@ -595,8 +639,9 @@ func c03NotFresh(out *c03Walk, ins ...*c03Walk) []c03FreshHit {
 				if sp.held {
 					label += "-in-interface"
 				}
-				if _, seen := hits[label]; !seen {
-					hits[label] = c03FreshHit{Label: label, Detail: fmt.Sprintf("backing array of a %s [%#x,%#x) in the result overlaps a slice of an input", sp.typ, sp.lo, sp.hi)}
+				tag := merged[k].tag
+				if _, seen := hits[label+"|"+tag]; !seen {
+					hits[label+"|"+tag] = c03FreshHit{Label: label, Tag: tag, Detail: fmt.Sprintf("backing array of a %s [%#x,%#x) in the result overlaps a slice of an input %s", sp.typ, sp.lo, sp.hi, tag)}
 				}
 			}
 		}
